@@ -20,6 +20,7 @@ static int code_to_rstatus(int c) {
 
 LoadOutcome checked_load(const uint8_t* win, size_t n, const LoadOpts& o, MV* tree_out) {
   LoadOutcome out;
+  if (!g_task_mode) sa_compact();      // receivers retry thousands of loads in one run; dead block records need not pile up
   const uint8_t* w = win; uint8_t* owned = nullptr;
   static const uint8_t dummy = 0;
   if (o.exact_window) { owned = (uint8_t*)malloc(n); if (n) memcpy(owned, win, n); w = owned; }
